@@ -75,50 +75,53 @@ Record st := {
   ws : list writer;
   lostcnt : N;                     (* shmem_lost_count *)
   gmark : N;                       (* ghost: sum of the counts of all LOST markers written *)
+  kicks : nat;                     (* bytes/4 waiting in the thread_ctl pipe: wake-ups for the writers *)
   stopped : bool;                  (* buf_done *)
   joined : bool;
   file : tid -> list rec           (* <tid>.dat *)
 }.
 
 Definition set_data (s : st) (v : bufid -> list rec) : st :=
-  {| data := v; flag := flag s; stale := stale s; nbuf := nbuf s; curr := curr s; losts := losts s; pdone := pdone s; plog := plog s; chan := chan s; shl := shl s; bwl := bwl s; ws := ws s; lostcnt := lostcnt s; gmark := gmark s; stopped := stopped s; joined := joined s; file := file s |}.
+  {| data := v; flag := flag s; stale := stale s; nbuf := nbuf s; curr := curr s; losts := losts s; pdone := pdone s; plog := plog s; chan := chan s; shl := shl s; bwl := bwl s; ws := ws s; lostcnt := lostcnt s; gmark := gmark s; kicks := kicks s; stopped := stopped s; joined := joined s; file := file s |}.
 Definition set_flag (s : st) (v : bufid -> flags) : st :=
-  {| data := data s; flag := v; stale := stale s; nbuf := nbuf s; curr := curr s; losts := losts s; pdone := pdone s; plog := plog s; chan := chan s; shl := shl s; bwl := bwl s; ws := ws s; lostcnt := lostcnt s; gmark := gmark s; stopped := stopped s; joined := joined s; file := file s |}.
+  {| data := data s; flag := v; stale := stale s; nbuf := nbuf s; curr := curr s; losts := losts s; pdone := pdone s; plog := plog s; chan := chan s; shl := shl s; bwl := bwl s; ws := ws s; lostcnt := lostcnt s; gmark := gmark s; kicks := kicks s; stopped := stopped s; joined := joined s; file := file s |}.
 Definition set_stale (s : st) (v : bufid -> N) : st :=
-  {| data := data s; flag := flag s; stale := v; nbuf := nbuf s; curr := curr s; losts := losts s; pdone := pdone s; plog := plog s; chan := chan s; shl := shl s; bwl := bwl s; ws := ws s; lostcnt := lostcnt s; gmark := gmark s; stopped := stopped s; joined := joined s; file := file s |}.
+  {| data := data s; flag := flag s; stale := v; nbuf := nbuf s; curr := curr s; losts := losts s; pdone := pdone s; plog := plog s; chan := chan s; shl := shl s; bwl := bwl s; ws := ws s; lostcnt := lostcnt s; gmark := gmark s; kicks := kicks s; stopped := stopped s; joined := joined s; file := file s |}.
 Definition set_nbuf (s : st) (v : tid -> nat) : st :=
-  {| data := data s; flag := flag s; stale := stale s; nbuf := v; curr := curr s; losts := losts s; pdone := pdone s; plog := plog s; chan := chan s; shl := shl s; bwl := bwl s; ws := ws s; lostcnt := lostcnt s; gmark := gmark s; stopped := stopped s; joined := joined s; file := file s |}.
+  {| data := data s; flag := flag s; stale := stale s; nbuf := v; curr := curr s; losts := losts s; pdone := pdone s; plog := plog s; chan := chan s; shl := shl s; bwl := bwl s; ws := ws s; lostcnt := lostcnt s; gmark := gmark s; kicks := kicks s; stopped := stopped s; joined := joined s; file := file s |}.
 Definition set_curr (s : st) (v : tid -> option nat) : st :=
-  {| data := data s; flag := flag s; stale := stale s; nbuf := nbuf s; curr := v; losts := losts s; pdone := pdone s; plog := plog s; chan := chan s; shl := shl s; bwl := bwl s; ws := ws s; lostcnt := lostcnt s; gmark := gmark s; stopped := stopped s; joined := joined s; file := file s |}.
+  {| data := data s; flag := flag s; stale := stale s; nbuf := nbuf s; curr := v; losts := losts s; pdone := pdone s; plog := plog s; chan := chan s; shl := shl s; bwl := bwl s; ws := ws s; lostcnt := lostcnt s; gmark := gmark s; kicks := kicks s; stopped := stopped s; joined := joined s; file := file s |}.
 Definition set_losts (s : st) (v : tid -> N) : st :=
-  {| data := data s; flag := flag s; stale := stale s; nbuf := nbuf s; curr := curr s; losts := v; pdone := pdone s; plog := plog s; chan := chan s; shl := shl s; bwl := bwl s; ws := ws s; lostcnt := lostcnt s; gmark := gmark s; stopped := stopped s; joined := joined s; file := file s |}.
+  {| data := data s; flag := flag s; stale := stale s; nbuf := nbuf s; curr := curr s; losts := v; pdone := pdone s; plog := plog s; chan := chan s; shl := shl s; bwl := bwl s; ws := ws s; lostcnt := lostcnt s; gmark := gmark s; kicks := kicks s; stopped := stopped s; joined := joined s; file := file s |}.
 Definition set_pdone (s : st) (v : tid -> bool) : st :=
-  {| data := data s; flag := flag s; stale := stale s; nbuf := nbuf s; curr := curr s; losts := losts s; pdone := v; plog := plog s; chan := chan s; shl := shl s; bwl := bwl s; ws := ws s; lostcnt := lostcnt s; gmark := gmark s; stopped := stopped s; joined := joined s; file := file s |}.
+  {| data := data s; flag := flag s; stale := stale s; nbuf := nbuf s; curr := curr s; losts := losts s; pdone := v; plog := plog s; chan := chan s; shl := shl s; bwl := bwl s; ws := ws s; lostcnt := lostcnt s; gmark := gmark s; kicks := kicks s; stopped := stopped s; joined := joined s; file := file s |}.
 Definition set_plog (s : st) (v : tid -> list pev) : st :=
-  {| data := data s; flag := flag s; stale := stale s; nbuf := nbuf s; curr := curr s; losts := losts s; pdone := pdone s; plog := v; chan := chan s; shl := shl s; bwl := bwl s; ws := ws s; lostcnt := lostcnt s; gmark := gmark s; stopped := stopped s; joined := joined s; file := file s |}.
+  {| data := data s; flag := flag s; stale := stale s; nbuf := nbuf s; curr := curr s; losts := losts s; pdone := pdone s; plog := v; chan := chan s; shl := shl s; bwl := bwl s; ws := ws s; lostcnt := lostcnt s; gmark := gmark s; kicks := kicks s; stopped := stopped s; joined := joined s; file := file s |}.
 Definition set_chan (s : st) (v : list msg) : st :=
-  {| data := data s; flag := flag s; stale := stale s; nbuf := nbuf s; curr := curr s; losts := losts s; pdone := pdone s; plog := plog s; chan := v; shl := shl s; bwl := bwl s; ws := ws s; lostcnt := lostcnt s; gmark := gmark s; stopped := stopped s; joined := joined s; file := file s |}.
+  {| data := data s; flag := flag s; stale := stale s; nbuf := nbuf s; curr := curr s; losts := losts s; pdone := pdone s; plog := plog s; chan := v; shl := shl s; bwl := bwl s; ws := ws s; lostcnt := lostcnt s; gmark := gmark s; kicks := kicks s; stopped := stopped s; joined := joined s; file := file s |}.
 Definition set_shl (s : st) (v : list bufid) : st :=
-  {| data := data s; flag := flag s; stale := stale s; nbuf := nbuf s; curr := curr s; losts := losts s; pdone := pdone s; plog := plog s; chan := chan s; shl := v; bwl := bwl s; ws := ws s; lostcnt := lostcnt s; gmark := gmark s; stopped := stopped s; joined := joined s; file := file s |}.
+  {| data := data s; flag := flag s; stale := stale s; nbuf := nbuf s; curr := curr s; losts := losts s; pdone := pdone s; plog := plog s; chan := chan s; shl := v; bwl := bwl s; ws := ws s; lostcnt := lostcnt s; gmark := gmark s; kicks := kicks s; stopped := stopped s; joined := joined s; file := file s |}.
 Definition set_bwl (s : st) (v : list bufid) : st :=
-  {| data := data s; flag := flag s; stale := stale s; nbuf := nbuf s; curr := curr s; losts := losts s; pdone := pdone s; plog := plog s; chan := chan s; shl := shl s; bwl := v; ws := ws s; lostcnt := lostcnt s; gmark := gmark s; stopped := stopped s; joined := joined s; file := file s |}.
+  {| data := data s; flag := flag s; stale := stale s; nbuf := nbuf s; curr := curr s; losts := losts s; pdone := pdone s; plog := plog s; chan := chan s; shl := shl s; bwl := v; ws := ws s; lostcnt := lostcnt s; gmark := gmark s; kicks := kicks s; stopped := stopped s; joined := joined s; file := file s |}.
 Definition set_ws (s : st) (v : list writer) : st :=
-  {| data := data s; flag := flag s; stale := stale s; nbuf := nbuf s; curr := curr s; losts := losts s; pdone := pdone s; plog := plog s; chan := chan s; shl := shl s; bwl := bwl s; ws := v; lostcnt := lostcnt s; gmark := gmark s; stopped := stopped s; joined := joined s; file := file s |}.
+  {| data := data s; flag := flag s; stale := stale s; nbuf := nbuf s; curr := curr s; losts := losts s; pdone := pdone s; plog := plog s; chan := chan s; shl := shl s; bwl := bwl s; ws := v; lostcnt := lostcnt s; gmark := gmark s; kicks := kicks s; stopped := stopped s; joined := joined s; file := file s |}.
 Definition set_lostcnt (s : st) (v : N) : st :=
-  {| data := data s; flag := flag s; stale := stale s; nbuf := nbuf s; curr := curr s; losts := losts s; pdone := pdone s; plog := plog s; chan := chan s; shl := shl s; bwl := bwl s; ws := ws s; lostcnt := v; gmark := gmark s; stopped := stopped s; joined := joined s; file := file s |}.
+  {| data := data s; flag := flag s; stale := stale s; nbuf := nbuf s; curr := curr s; losts := losts s; pdone := pdone s; plog := plog s; chan := chan s; shl := shl s; bwl := bwl s; ws := ws s; lostcnt := v; gmark := gmark s; kicks := kicks s; stopped := stopped s; joined := joined s; file := file s |}.
 Definition set_gmark (s : st) (v : N) : st :=
-  {| data := data s; flag := flag s; stale := stale s; nbuf := nbuf s; curr := curr s; losts := losts s; pdone := pdone s; plog := plog s; chan := chan s; shl := shl s; bwl := bwl s; ws := ws s; lostcnt := lostcnt s; gmark := v; stopped := stopped s; joined := joined s; file := file s |}.
+  {| data := data s; flag := flag s; stale := stale s; nbuf := nbuf s; curr := curr s; losts := losts s; pdone := pdone s; plog := plog s; chan := chan s; shl := shl s; bwl := bwl s; ws := ws s; lostcnt := lostcnt s; gmark := v; kicks := kicks s; stopped := stopped s; joined := joined s; file := file s |}.
+Definition set_kicks (s : st) (v : nat) : st :=
+  {| data := data s; flag := flag s; stale := stale s; nbuf := nbuf s; curr := curr s; losts := losts s; pdone := pdone s; plog := plog s; chan := chan s; shl := shl s; bwl := bwl s; ws := ws s; lostcnt := lostcnt s; gmark := gmark s; kicks := v; stopped := stopped s; joined := joined s; file := file s |}.
 Definition set_stopped (s : st) (v : bool) : st :=
-  {| data := data s; flag := flag s; stale := stale s; nbuf := nbuf s; curr := curr s; losts := losts s; pdone := pdone s; plog := plog s; chan := chan s; shl := shl s; bwl := bwl s; ws := ws s; lostcnt := lostcnt s; gmark := gmark s; stopped := v; joined := joined s; file := file s |}.
+  {| data := data s; flag := flag s; stale := stale s; nbuf := nbuf s; curr := curr s; losts := losts s; pdone := pdone s; plog := plog s; chan := chan s; shl := shl s; bwl := bwl s; ws := ws s; lostcnt := lostcnt s; gmark := gmark s; kicks := kicks s; stopped := v; joined := joined s; file := file s |}.
 Definition set_joined (s : st) (v : bool) : st :=
-  {| data := data s; flag := flag s; stale := stale s; nbuf := nbuf s; curr := curr s; losts := losts s; pdone := pdone s; plog := plog s; chan := chan s; shl := shl s; bwl := bwl s; ws := ws s; lostcnt := lostcnt s; gmark := gmark s; stopped := stopped s; joined := v; file := file s |}.
+  {| data := data s; flag := flag s; stale := stale s; nbuf := nbuf s; curr := curr s; losts := losts s; pdone := pdone s; plog := plog s; chan := chan s; shl := shl s; bwl := bwl s; ws := ws s; lostcnt := lostcnt s; gmark := gmark s; kicks := kicks s; stopped := stopped s; joined := v; file := file s |}.
 Definition set_file (s : st) (v : tid -> list rec) : st :=
-  {| data := data s; flag := flag s; stale := stale s; nbuf := nbuf s; curr := curr s; losts := losts s; pdone := pdone s; plog := plog s; chan := chan s; shl := shl s; bwl := bwl s; ws := ws s; lostcnt := lostcnt s; gmark := gmark s; stopped := stopped s; joined := joined s; file := v |}.
+  {| data := data s; flag := flag s; stale := stale s; nbuf := nbuf s; curr := curr s; losts := losts s; pdone := pdone s; plog := plog s; chan := chan s; shl := shl s; bwl := bwl s; ws := ws s; lostcnt := lostcnt s; gmark := gmark s; kicks := kicks s; stopped := stopped s; joined := joined s; file := v |}.
 
 Definition init (nw : nat) : st :=
   {| data := fun _ => []; flag := fun _ => fl0; stale := fun _ => 0%N; nbuf := fun _ => 0; curr := fun _ => None;
      losts := fun _ => 0%N; pdone := fun _ => false; plog := fun _ => []; chan := []; shl := []; bwl := [];
-     ws := repeat w_idle nw; lostcnt := 0%N; gmark := 0%N; stopped := false; joined := false;
+     ws := repeat w_idle nw; lostcnt := 0%N; gmark := 0%N; kicks := 0; stopped := false; joined := false;
      file := fun _ => [] |}.
 
 (* ------------------------------------------------------------------ records *)
@@ -274,7 +277,9 @@ Fixpoint give (b : bufid) (l : list writer) : option (list writer) :=
 Definition copy_to_buffer (s : st) (b : bufid) : st :=
   match give b (ws s) with
   | Some ws' => set_ws s ws'
-  | None => set_bwl s (bwl s ++ [b])
+  | None => (* list_add_tail(&buf->list, &buf_write_list); write(thread_ctl[1], &kick, 4) - fails once the pipe is closed *)
+            let s1 := set_bwl s (bwl s ++ [b]) in
+            if stopped s then s1 else set_kicks s1 (S (kicks s))
   end.
 Definition is_nil {A} (l : list A) : bool := match l with [] => true | _ => false end.
 (* record_mmap_file: queued only if the flag has RECORDING and size != 0 *)
@@ -297,6 +302,10 @@ Fixpoint set_nth {A} (i : nat) (x : A) (l : list A) : list A :=
   | h :: t, S i' => h :: set_nth i' x t
   end.
 
+(* an idle writer gets past poll()/read() only with a kick in the pipe (one is consumed), or, after
+   stop_all_writers closed the pipe, by end-of-file *)
+Definition take_kick (s : st) : option st :=
+  if stopped s then Some s else match kicks s with 0 => None | S k => Some (set_kicks s k) end.
 Definition w_pick (s : st) (w : nat) : option st :=
   if joined s then None else
   match nth_error (ws s) w with
@@ -304,13 +313,17 @@ Definition w_pick (s : st) (w : nat) : option st :=
       match wtid wr with
       | Some _ => None
       | None =>
-          match bwl s with
-          | [] => Some s
-          | b :: _ =>
-              let t := fst b in
-              Some (set_bwl (set_ws s (set_nth w {| wtid := Some t; whead := of_tid t (bwl s);
-                                                     wbufs := wbufs wr; wrote := false |} (ws s)))
-                            (not_tid t (bwl s)))
+          match take_kick s with
+          | None => None
+          | Some s =>
+              match bwl s with
+              | [] => Some s
+              | b :: _ =>
+                  let t := fst b in
+                  Some (set_bwl (set_ws s (set_nth w {| wtid := Some t; whead := of_tid t (bwl s);
+                                                         wbufs := wbufs wr; wrote := false |} (ws s)))
+                                (not_tid t (bwl s)))
+              end
           end
       end
   | None => None
@@ -466,7 +479,7 @@ Definition set_stack (d : drv) (t : tid) (l : list frame) : drv :=
 
 Inductive op :=
 | OpE (t : tid) (k time : N) (pl : list byte)   (* mcount_entry of f<k> in thread t, saved argument bytes *)
-| OpX (t : tid) (time : N)       (* mcount_exit in thread t *)
+| OpX (t : tid) (time : N) (rpl : list byte)   (* mcount_exit in thread t, saved return value bytes *)
 | OpEnd (t : tid)                (* thread exit: mtd_dtor -> shmem_finish *)
 | OpFail (n : nat)               (* the next n shm_open(O_CREAT) fail *)
 | OpM                            (* recorder: next REC_START/REC_END/LOST message *)
@@ -558,7 +571,7 @@ Fixpoint mark_written (n : nat) (l : list frame) : list frame :=   (* l: outermo
   | _, _ => l
   end.
 
-Definition exec_exit (c : cfg) (s : st) (d : drv) (t : tid) (time : N) : option (st * drv) :=
+Definition exec_exit (c : cfg) (s : st) (d : drv) (t : tid) (time : N) (rpl : list byte) : option (st * drv) :=
   match stacks d t with
   | [] => Some (s, d)
   | top :: below =>
@@ -583,7 +596,9 @@ Definition exec_exit (c : cfg) (s : st) (d : drv) (t : tid) (time : N) : option 
             else emit1 c (s1, d2) t (entry_hp d2 top dep) in
           match after_entry with
           | Some (s2, d3, true) =>
-              match emit1 c (s2, d3) t (enc_rec time UFTRACE_EXIT dep addr) with
+              match emit1 c (s2, d3) t (le_bytes 8 time
+                                         ++ le_bytes 8 (rec_word UFTRACE_EXIT dep addr + (if is_nil rpl then 0 else 4))%N
+                                         ++ rpl) with
               | Some (s3, d4, _) => Some (s3, d4)
               | None => None
               end
@@ -602,7 +617,7 @@ Definition exec_w (s : st) (w : nat) : option st :=
   match nth_error (ws s) w with
   | Some wr =>
       match wtid wr with
-      | None => w_pick s w
+      | None => match w_pick s w with Some s' => Some s' | None => Some s end    (* no kick: poll times out *)
       | Some _ =>
           match w_write s w with
           | Some s1 =>
@@ -655,7 +670,7 @@ Definition exec_op (c : cfg) (sd : st * drv) (o : op) : option (st * drv) :=
       | Some s1 => Some (s1, set_stack d t ({| fk := k; ftime := time; fwritten := false; fpl := pl |} :: stacks d t))
       | None => None
       end
-  | OpX t time => exec_exit c s d t time
+  | OpX t time rpl => exec_exit c s d t time rpl
   | OpEnd t => match p_finish s t with Some s' => Some (s', d) | None => None end
   | OpFail n => Some (s, {| stacks := stacks d; failn := n; base := base d; img := img d |})
   | OpM => match chan s with [] => Some (s, d) | _ => match m_msg s with Some s' => Some (s', d) | None => None end end
@@ -676,7 +691,7 @@ Definition snap_prod (s : st) (t : tid) : list N :=
   ++ flat_map (fun i => [flag_word (flag s (t, i)); N.of_nat (size s (t, i))]) (seq 0 (nbuf s t)).
 Definition enc_ids (l : list bufid) : list N := N.of_nat (length l) :: map enc_id l.
 Definition snap_rec (s : st) (nt : nat) : list N :=
-  enc_ids (shl s) ++ enc_ids (bwl s) ++ [lostcnt s]
+  enc_ids (shl s) ++ enc_ids (bwl s) ++ [lostcnt s; if stopped s then 0%N else N.of_nat (kicks s)]
   ++ flat_map (fun w => enc_opt (wtid w) :: enc_ids (wbufs w)) (ws s)
   ++ map (fun t => N.of_nat (length (bytes_of (file s t)))) (seq 0 nt).
 (* producers that are still alive are observable; a finished thread has unmapped its ring *)
